@@ -1,5 +1,6 @@
 import RtenVerif.Driver.Util
 import RtenVerif.Model.Contours
+import RtenVerif.Model.FillIter
 
 /-!
 Line protocol for C36.
@@ -9,6 +10,12 @@ Line protocol for C36.
 * `line <h> <w> <y0> <x0> <y1> <x1>` — `draw_line(.., width 1)`;
   `fill <h> <w> <t> <l> <b> <r>` — `fill_rect`; `stroke <h> <w> <t> <l> <b> <r> <sw>` —
   `stroke_rect`.  Answer: sorted set of written pixels `y,x;…` (`-` if none) then ` panic=<0|1>`.
+* `fillit <pts>` — `Polygon::fill_iter()` of the polygon `y,x;…` (`-` if empty).  Answer: the
+  yielded pixels in order (`-` if none) then ` done=<0|1>` (1 = finished within the fuel
+  `area of the bounding rect + 1`).
+* `wline <h> <w> <corners>` — `draw_line` with width > 1, given the four integer corners of the
+  rotated rect as the code computes them; `poly <h> <w> <pts>` — `draw_polygon` with width 1.
+  Answer as for `line`.
 * lines starting with `#` are not compared (`skip`).
 -/
 namespace RtenVerif.Driver.C36
@@ -37,6 +44,14 @@ def handleFc (mode rows cols bits : String) : String :=
     | .nofuel => "nofuel"
   | _, _ => "bad-request"
 
+def parsePt (w : String) : Option Pt :=
+  match w.splitOn "," with
+  | [a, b] => do let y ← a.toInt?; let x ← b.toInt?; pure (y, x)
+  | _ => none
+
+def parsePts (s : String) : Option (List Pt) :=
+  if s == "-" then some [] else (s.splitOn ";").mapM parsePt
+
 def handle (line : String) : String :=
   if line.startsWith "#" then "skip" else
   match words line with
@@ -53,6 +68,18 @@ def handle (line : String) : String :=
     match args.mapM String.toInt? with
     | some [h, w, t, l, b, r, sw] => showWrites (strokeRect h w t l b r sw)
     | _ => "bad-request"
+  | ["fillit", ptsW] =>
+    match parsePts ptsW with
+    | some pts => let r := fillIter pts; s!"{showPts r.1} done={b01 r.2}"
+    | none => "bad-request"
+  | "wline" :: hW :: wW :: ptsW :: _ =>
+    match hW.toInt?, wW.toInt?, parsePts ptsW with
+    | some h, some w, some cs => showWrites (drawWideLine h w cs)
+    | _, _, _ => "bad-request"
+  | ["poly", hW, wW, ptsW] =>
+    match hW.toInt?, wW.toInt?, parsePts ptsW with
+    | some h, some w, some pts => showWrites (drawPolygon1 h w (polyEdges pts))
+    | _, _, _ => "bad-request"
   | _ => "bad-request"
 
 end RtenVerif.Driver.C36
